@@ -383,6 +383,25 @@ func mutations(h []byte, fields []lenField, r *rand.Rand, allTrunc bool) [][]byt
 				binary.BigEndian.PutUint16(b[f.off:], uint16(v))
 				add(b)
 			}
+			// consistently re-framed: shorter / longer content with a matching length
+			if int(d) <= len(h)-f.off-2 {
+				body := h[f.off+2 : f.off+2+int(d)]
+				tail := h[f.off+2+int(d):]
+				for _, k := range []int{0, 1, 31, 32, 33, len(body) - 1, len(body) + 1} {
+					if k < 0 || k == len(body) {
+						continue
+					}
+					nb := append([]byte{}, body...)
+					if k <= len(body) {
+						nb = nb[:k]
+					} else {
+						nb = append(nb, 0)
+					}
+					b := append(cp(h[:f.off]), byte(len(nb)>>8), byte(len(nb)))
+					b = append(append(b, nb...), tail...)
+					add(b)
+				}
+			}
 		case "varint":
 			d, n := quicwire.ConsumeVarint(h[f.off:])
 			if n < 0 {
@@ -396,6 +415,26 @@ func mutations(h []byte, fields []lenField, r *rand.Rand, allTrunc bool) [][]byt
 					}
 					b := append(cp(h[:f.off]), encVarintWidth(v, w)...)
 					b = append(b, h[f.off+n:]...)
+					add(b)
+				}
+			}
+			// consistently re-framed bodies: the declared length matches what follows,
+			// but the body itself is cut (or extended) inside its last element
+			if int(d) <= len(h)-f.off-n {
+				body := h[f.off+n : f.off+n+int(d)]
+				tail := h[f.off+n+int(d):]
+				for _, k := range []int{len(body) - 1, len(body) - 2, len(body) - 12, len(body) - 50, len(body) / 2, 40, 3, 2, 1, len(body) + 1} {
+					if k < 0 || k == len(body) {
+						continue
+					}
+					nb := append([]byte{}, body...)
+					if k <= len(body) {
+						nb = nb[:k]
+					} else {
+						nb = append(nb, 0)
+					}
+					b := append(cp(h[:f.off]), quicwire.AppendVarint(nil, uint64(len(nb)))...)
+					b = append(append(b, nb...), tail...)
 					add(b)
 				}
 			}
@@ -517,6 +556,15 @@ func honestMessages(c *ctx, r *rand.Rand) []honestMsg {
 		add("inner", in.Marshal(), lenField{257, "u16"})
 	}
 	add("encap", w.issuer.NameKey().Marshal())
+	// well-formed name keys of every suite go-hpke implements (any 32 bytes are an X25519 public key)
+	for _, kdf := range []uint16{1, 2, 3} {
+		for _, aead := range []uint16{1, 2, 3} {
+			b := []byte{byte(r.Intn(256)), 0x00, 0x20}
+			b = append(b, randBytes(r, 32)...)
+			b = append(b, byte(kdf>>8), byte(kdf), byte(aead>>8), byte(aead))
+			add("encap", b)
+		}
+	}
 	pk, _ := type3.CreatePrivateEncapKeyFromSeed(randBytes(r, 32))
 	add("encap", pk.Public().Marshal())
 
